@@ -286,6 +286,8 @@ pub enum Ans {
     Interrupt,
     /// ModifiedSolution with y multiplied by the factor (1.0 = untouched)
     Modified(f64),
+    /// XOut(x): ask for dense output at x (low-level protocol only)
+    XOut(f64),
 }
 
 pub struct ProbeSolOut<'p, 'a> {
@@ -346,6 +348,7 @@ impl<'p, 'a> ivp::solout::SolOut for ProbeSolOut<'p, 'a> {
                 self.probe.seal();
                 ControlFlag::Interrupt
             }
+            Ans::XOut(xo) => ControlFlag::XOut(xo),
             Ans::Modified(fac) => {
                 if fac != 1.0 {
                     for v in y.iter_mut() {
